@@ -142,7 +142,11 @@ func (reg *LWW) setValue(ctx context.Context, val []byte, priority uint64) error
 		return nil
 	} else if priority == curPrio {
 		curValue, err := reg.store.Get(ctx, key.Bytes())
-		if err != nil {
+		if errors.Is(err, corekv.ErrNotFound) {
+			// A nil value is stored by omitting the key (see below), so a missing
+			// key at the current priority means the current value is nil.
+			curValue = client.CborNil
+		} else if err != nil {
 			return err
 		}
 
